@@ -39,7 +39,10 @@ RULE = (
     "count, propagated exception, re-open from a second Workspace and comparison of every completed operation's effect, "
     "ws.open() on the same object; ~6% with an injected OSError in the final save; after_close: every getter of every fixture "
     "class called on an entity whose workspace was closed, compared with the same getter on an open workspace; closed_entry: "
-    "public mutating entry points called after close.  non-trivial = a block with >= 2 completed writing operations and an "
+    "public mutating entry points called after close; fa_exc: fetch_active_workspace blocks left by an exception or normally, from "
+    "every starting state x requested mode; reopen_content: file edited through another handle (or rejected read-only writes) "
+    "between close and ws.open(), entity and entity-type fields compared with a third Workspace; mem_dh: BytesIO workspaces with "
+    "concatenated drillholes through close / with-exit / exception / save_as.  non-trivial = a block with >= 2 completed writing operations and an "
     "exception, or a getter/entry point that reaches _io_call after close"
 )
 LEVEL_TEXT = (
